@@ -57,14 +57,18 @@ Other  == IF link = "T1" THEN "T2" ELSE "T1"
 Prim(p, f, v) == [p |-> p, f |-> f, v |-> v]
 WriteFile(f, v) == IF Exists(f) THEN <<Prim("trunc", f, ""), Prim("wr", f, v)>>
                                 ELSE <<Prim("creat", f, ""), Prim("wr", f, v)>>
-OpKinds == IF Layout = "plain" THEN {"Write", "Remove", "Create"} ELSE {"Write", "Remove", "Create", "Swap"}
+\* Touch: something else happens in the watched directory (a sibling file is written): an event that is neither a
+\* Write nor a Create of the watched file, and not a change of the configuration
+OpKinds == IF Layout = "plain" THEN {"Write", "Remove", "Create", "Touch"} ELSE {"Write", "Remove", "Create", "Swap", "Touch"}
 Legal(op) == CASE op = "Write"  -> Exists(Target)
                [] op = "Remove" -> Exists(Target)
                [] op = "Create" -> ~Exists(Target)
                [] op = "Swap"   -> Layout = "link"
+               [] op = "Touch"  -> TRUE
 Prims(op, k) == CASE op = "Write"  -> WriteFile(Target, Ver(k))
                   [] op = "Create" -> WriteFile(Target, Ver(k))
                   [] op = "Remove" -> <<Prim("unlink", Target, "")>>
+                  [] op = "Touch"  -> <<Prim("sib", "S", "")>>
                   [] op = "Swap"   -> WriteFile(Other, Ver(k)) \o <<Prim("symlink", Other, ""), Prim("rename", "", "")>>
 
 Ev(n, o) == [name |-> n, op |-> o]
@@ -72,6 +76,7 @@ EventsOf(p) == CASE p.p = "trunc"   -> <<Ev(p.f, "Write")>>
                  [] p.p = "wr"      -> <<Ev(p.f, "Write")>>
                  [] p.p = "creat"   -> <<Ev(p.f, "Create")>>
                  [] p.p = "unlink"  -> <<Ev(p.f, "Remove")>>
+                 [] p.p = "sib"     -> <<Ev("S", "Write")>>
                  [] p.p = "symlink" -> <<Ev("tmp", "Create")>>
                  [] p.p = "rename"  -> <<Ev("tmp", "Rename"), Ev("W", "Create")>>
 
@@ -101,7 +106,7 @@ DoPrim ==
         /\ tmp'  = CASE p.p = "symlink" -> p.f [] p.p = "rename" -> "" [] OTHER -> tmp
         /\ link' = IF p.p = "rename" THEN tmp ELSE link
         /\ queue' = queue \o EventsOf(p)
-    /\ sched' = Tail(sched) /\ lastChange' = now
+    /\ sched' = Tail(sched) /\ lastChange' = (IF Head(sched).p = "sib" THEN lastChange ELSE now)
     /\ UNCHANGED <<now, wpc, ev, cur, prev, lastCalled, wakeAt, pending, pendingAt, cpc, loaded, nsig,
                    at, nops, hist, finished>>
 
@@ -181,7 +186,8 @@ Tick ==
 
 Init ==
     /\ now = 0
-    /\ files = [f \in {"W", "T1", "T2"} |-> IF f = (IF Layout = "plain" THEN "W" ELSE "T1") THEN "v0" ELSE None]
+    /\ files = [f \in {"W", "T1", "T2", "S"} |-> IF f = "S" THEN "s"
+                                             ELSE IF f = (IF Layout = "plain" THEN "W" ELSE "T1") THEN "v0" ELSE None]
     /\ link = (IF Layout = "plain" THEN "" ELSE "T1") /\ tmp = ""
     /\ queue = <<>>
     /\ wpc = "idle" /\ ev = Ev("W", "Write") /\ cur = "" /\ lastCalled = Never /\ wakeAt = 0
